@@ -289,8 +289,15 @@ func (s *Scenario) FaultAt(receiver string, idx int, off time.Duration) *Fault {
 // DebugWriter, when set, receives the instance's debug log (replay only).
 var DebugWriter io.Writer
 
+// ScriptOverride is unused (kept for compatibility).
+var ScriptOverride sim.Script
+
 // Run executes the scenario. It must be called inside a synctest bubble; dir is a scratch directory.
-func Run(s *Scenario, dir string) *Result {
+func Run(s *Scenario, dir string) *Result { return RunWith(s, dir, nil, nil) }
+
+// RunWith is Run with an explicit delivery script (instead of the scenario's fault windows) and a
+// hook that is called right before the instance is stopped.
+func RunWith(s *Scenario, dir string, custom sim.Script, beforeStop func(*sim.Instance)) *Result {
 	res := &Result{Scenario: s, Log: &sim.Log{}, Alerts: model.NewAlertBook(s.Config.ResolveTimeout), Sils: model.NewSilBook(), SlotIDs: map[int][]string{}}
 	if res.Alerts.ResolveTimeout == 0 {
 		res.Alerts.ResolveTimeout = 5 * time.Minute
@@ -327,6 +334,9 @@ func Run(s *Scenario, dir string) *Result {
 			}
 		}
 	}
+	if custom != nil {
+		script = custom
+	}
 	mkOpts := func(c *Config, keep bool) sim.Options {
 		return sim.Options{Yield: yield, Name: "am0", ConfigYAML: c.YAML(), Dir: dir, KeepData: keep, Log: res.Log, Script: script, Debug: DebugWriter,
 			Retention: s.Retention, MaintenanceInterval: s.MaintenanceInterval, AlertGCInterval: s.AlertGCInterval,
@@ -345,7 +355,12 @@ func Run(s *Scenario, dir string) *Result {
 		res.Err = "start: " + err.Error()
 		return res
 	}
-	defer func() { in.Stop() }()
+	defer func() {
+		if beforeStop != nil {
+			beforeStop(in)
+		}
+		in.Stop()
+	}()
 
 	slotID := map[int]string{}
 	observeSilences := func() {
